@@ -30,18 +30,20 @@ MANIFEST = {
              "shift, clip, overlay/underlay, _binop over the encompassing span, apply, trim), for all series, dates, variants and values, "
              "no bound: the model refines the map abs : (serial, variant) -> value -- a write changes exactly the addressed cells (last "
              "write wins), a read returns abs, shift moves abs by exactly k, NaN-strict binary operators act pointwise on abs after "
-             "alignment (equal numbers of variants), clip/slices/element-wise apply are one equation on abs each, for overlay the frame (nothing outside "
-             "the other span changes), well-formedness and trimming are proved while its value equation (and underlay/hstack, 1-vs-n variant "
-             "broadcasting in operators) rests on the correspondence run; trim leaves abs unchanged and establishes "
+             "alignment including numpy's 1-vs-n variant broadcasting, clip/slices/element-wise apply/overlay/underlay (by span)/replace_where are "
+             "one equation on abs each, row statistics are the function's fold over the variants of each period, moving windows the "
+             "missing-strict function of the window abs(t-|w|+1..t); for fill_missing the neighbour rule is proved per column (its lifting to "
+             "abs) and for hstack the value equation rest on the correspondence run; trim leaves abs unchanged and establishes "
              "'no all-missing leading/trailing row, all-missing = empty series without start'; well-formedness is preserved by every "
              "operation and lifted to arbitrary op sequences over a pool by induction (reachable_inv). The model is tied to the code on "
              "every run by an op-sequence differential check against irispie (state of the whole pool compared after every op, exact "
              "rationals), and an independent dict-based map oracle plus heap-level isolation checks (non-receivers unchanged, functional "
              "results share no memory with inputs) run on the real objects and supply the replay."),
     "design": "7/C10",
-    "note": ("numpy dtype promotion/printing, the state left by a write that raises half-way, statistics/moving-window/fill/extrapolation "
-             "functions and transcendental element-wise functions are outside the theorems; aliasing is a heap fact checked at run time, "
-             "not proved."),
+    "note": ("numpy dtype promotion/printing, the state left by a write that raises half-way, extrapolate, median/std/var/quantiles, "
+             "log_linear/from_series fills and transcendental element-wise functions are outside the model; mean/nanmean/mov_avg/linear "
+             "fills are compared with tolerance 1e-9 (class T) when a divisor is not a power of two; aliasing is a heap fact checked at "
+             "run time, not proved."),
     "technique": "Lean 4 proof (refinement of an executable model to a map) + op-sequence differential correspondence + heap isolation oracle",
 }
 ASSUMPTIONS = [
@@ -49,6 +51,8 @@ ASSUMPTIONS = [
     "numpy fancy assignment with repeated positions keeps the last value (observed, modelled as such)",
     "comparison operators are observed as 0/1 series; dtype promotion of boolean data is not modelled (results are not fed back)",
     "a write that raises ends the op sequence: the partially mutated state it may leave is not modelled",
+    "class T: after mean/nanmean/mov_avg/linear-fill ops values are compared with tolerance 1e-9*max(1,|x|), structure exactly; "
+    "the generator lets such inexact values flow only through structural operations",
 ]
 
 CLS = {"I": D.IntegerPeriod, "Y": D.YearlyPeriod, "H": D.HalfyearlyPeriod, "Q": D.QuarterlyPeriod,
@@ -59,7 +63,7 @@ BASE = {"Y": 2020, "H": 4040, "Q": 8080, "M": 24240, "I": 0, "D": 737425}
 NAN = float("nan")
 POOL = 3
 
-TRIM_OPS = {"set", "overlay", "underlay", "foverlay", "funderlay", "bin", "sc", "rsc"}   # writes and arithmetic operators
+TRIM_OPS = {"set", "overlay", "underlay", "foverlay", "funderlay", "bin", "sc", "rsc", "rw"}   # writes and arithmetic operators
 FUNCTIONAL = {"new", "init", "call", "fshift", "idx", "foverlay", "funderlay", "hstack", "bin", "sc", "rsc", "un", "copy",
               "stat", "mov", "fill"}
 METHODS = {"set", "shift", "clip", "overlay", "underlay", "trim", "empty", "mstat", "mmov", "mfill", "rw"}
